@@ -454,6 +454,7 @@ static void *c10_root(void *arg) {
 	if (item_get(&p->cfg, "waitstart", 1)) { world_wait_threads_running(0); if (n2 > 0) world_wait_threads_running(1); }
 	for (int a = 0; a < actors; a++) { char nm[16]; snprintf(nm, sizeof(nm), "actor%d", a); ids[a] = sim_spawn(c10_actor, (void *)(intptr_t)a, nm); }
 	for (int a = 0; a < actors; a++) sim_join_fiber(ids[a]);
+	sim_fair_finish();
 	sim_wait_idle(3600ull * 1000000000ull);
 	bc_check_all(1);
 	if (g_nbc > 0) sim_mark_interesting();
